@@ -55,8 +55,12 @@ def parseItem (w : String) : Option Item :=
 def parseScript (w : String) : Option Script :=
   if w = "-" then some [] else (w.splitOn ",").mapM parseItem
 
-def parseCall (w : String) : Option (Nat × Bool) :=
-  if w.endsWith "!" then (w.dropEnd 1).toString.toNat?.map (·, false) else w.toNat?.map (·, true)
+/-- `<n>` = run_n_steps(n) then service; `<n>!` = no service afterwards; a leading `g` = the call is
+    `run_with_granularity(n)` (`Runtime::run()` is `g4294967295`) -/
+def parseCall (w : String) : Option (Nat × Bool × Bool) :=
+  let gran := w.startsWith "g"
+  let w := if gran then (w.drop 1).toString else w
+  if w.endsWith "!" then (w.dropEnd 1).toString.toNat?.map (·, false, gran) else w.toNat?.map (·, true, gran)
 
 def renderKind : Kind Nat String → String
   | .other => "o"
@@ -93,15 +97,17 @@ def chanOk (nchans : Nat) : Kind Nat String → Bool
   | .readOk c _ | .readBlocked c | .write c _ => c < nchans
   | _ => true
 
-def runCalls (table : List Script) : List (Nat × Bool) → Runtime Script Nat String → List String → List String
+def runCalls (table : List Script) : List (Nat × Bool × Bool) → Runtime Script Nat String → List String → List String
   | [], _, acc => acc.reverse
-  | (b, sv) :: rest, r, acc =>
-    let x := runN (scriptStep table) b r
-    let evs := x.rt.trace.drop r.trace.length
-    let line := s!"{renderEvents evs}|{renderStatus x.status}|{x.steps}|{renderQueue x.rt.runQueue}"
-    let r' := if sv then (serviceAll (fun (h : Unit) _ t => (h, t)) () x.rt).2 else x.rt
-    if evs.all (fun e => chanOk x.rt.chans.length e.kind) then runCalls table rest r' (line :: acc)
-    else ["bad-script"]
+  | (b, sv, gran) :: rest, r, acc =>
+    match (if gran then runG (scriptStep table) b 1000000 r else some (runN (scriptStep table) b r)) with
+    | none => ["never-returns"]
+    | some x =>
+      let evs := x.rt.trace.drop r.trace.length
+      let line := s!"{renderEvents evs}|{renderStatus x.status}|{x.steps}|{renderQueue x.rt.runQueue}"
+      let r' := if sv then (serviceAll (fun (h : Unit) _ t => (h, t)) () x.rt).2 else x.rt
+      if evs.all (fun e => chanOk x.rt.chans.length e.kind) then runCalls table rest r' (line :: acc)
+      else ["bad-script"]
 
 end Abra.Drv.SchedDrv
 namespace Abra.Drv
